@@ -52,7 +52,7 @@ theorem C07_connect_acceptor_keeps_store (s : Sess) (hi : s.cfg.initiator = fals
 /-- … and reconnecting as initiator continues the numbering: the Logon takes the next outbound number, the expected inbound
     number and everything stored are kept -/
 theorem C07_connect_initiator_continues (s : Sess) (hc : s.st.connected = false) (ht : s.st.sessionTime = true)
-    (hi : s.cfg.initiator = true) (hcfg : NoResetOptions s.cfg) :
+    (hi : s.cfg.initiator = true) (hcfg : NoResetFlags s.cfg) :
     let logon : OutMsg := { logonMsg (connectBase s) false with seq := s.store.sender }
     let s' := (connect s).1
     s'.st = .logon ∧ s'.store.target = s.store.target ∧ s'.store.sender = s.store.sender + 1 ∧ s'.store.epoch = s.store.epoch
@@ -208,7 +208,7 @@ def c07Hist : List Ev := [.connect, .incomingMsg (some (c07Logon 7 [])), .incomi
    .disconnected, .connect, .incomingMsg (some (c07Logon 9 []))]
 
 -- the hypotheses of C07_continuity are satisfiable (kernel-checked) …
-example : NoResetOptions {} := ⟨rfl, rfl, rfl⟩
+example : NoResetOptions {} := ⟨⟨rfl, rfl, rfl⟩, rfl⟩
 example : NoResetEv .connect ∧ NoResetEv .disconnected ∧ NoResetEv (.sessionTime true true) ∧ NoResetEv (.timeout .peerTimeout) :=
   ⟨trivial, trivial, rfl, trivial⟩
 -- … and a history that satisfies them does real work: two connections, counters continue from (5, 7) to (7, 10), both
